@@ -10,6 +10,7 @@ import (
 	"strconv"
 	"strings"
 	"testing"
+	"time"
 
 	"pgregory.net/rapid"
 
@@ -283,3 +284,23 @@ func closedForms(stmts []string, expect []string) string {
 	}
 	return ""
 }
+
+// watchdog runs f and reports whether it finished within d. It is the only
+// wall-clock signal of the framework: front-end work on inputs of a few KiB
+// takes microseconds, d is seconds. On a timeout the goroutine is abandoned
+// (the process is about to exit).
+func watchdog(d time.Duration, f func()) bool {
+	done := make(chan struct{})
+	go func() {
+		defer close(done)
+		f()
+	}()
+	select {
+	case <-done:
+		return true
+	case <-time.After(d):
+		return false
+	}
+}
+
+const hangLimit = 10 * time.Second
